@@ -199,7 +199,7 @@ def gen_case(rng, tier):
     nchunks = size // chunk + 1
     delay = rng.choice([0, 0, 0.0005, 0.002]) if nchunks < 200 else 0
     rc = rng.choice([0, 0, 1, 3, 255])
-    shape = rng.choice(["w", "w", "w", "a", "a", "w|catrc", "w|acat", "a|catrc", "a|acat", "w|cat|catrc", "w|acat|catrc", "w|head", "a|head", "w|catrc|acat"])
+    shape = rng.choice(["w", "w", "w", "a", "a", "w|catrc", "w|acat", "a|catrc", "a|acat", "w|cat|catrc", "w|acat|catrc", "w|head", "a|head", "w|catrc|acat", "w|head|catrc", "w|head|cat", "a|head|catrc", "w|head|acat"])
     threads = rng.random() < 0.9
     stages = []
     for tok in shape.split("|"):
@@ -249,6 +249,10 @@ DIRECTED = [
     {"payload": {"kind": "crlf", "size": 8192, "final_nl": True, "seed": 7}, "stages": [{"kind": "writer", "chunk": 7, "delay": 0.0005, "rc": 0, "linger": 0}], "form": "!()", "view": "out", "threads": False, "noise": False, "p": 0},
     {"payload": {"kind": "utf8", "size": 8192, "final_nl": True, "seed": 8}, "stages": [{"kind": "writer", "chunk": 7, "delay": 0.0005, "rc": 0, "linger": 0}], "form": "!()", "view": "out", "threads": False, "noise": False, "p": 0},
     {"payload": {"kind": "utf8", "size": 8192, "final_nl": True, "seed": 9}, "stages": [{"kind": "writer", "chunk": 7, "delay": 0.0005, "rc": 0, "linger": 0}], "form": "$()", "view": "str", "threads": True, "noise": False, "p": 0},
+    # a middle stage exits early while its producer is still writing and cannot finish on its own: the last stage must still see EOF
+    {"payload": {"kind": "lines", "size": 200000, "final_nl": True, "seed": 10}, "stages": [{"kind": "writer", "chunk": 4096, "delay": 0.001, "rc": 0, "linger": 0}, {"kind": "head", "n": 100}, {"kind": "catrc", "rc": 0, "delay": 0}], "form": "$()", "view": "str", "threads": True, "noise": False, "p": 0},
+    {"payload": {"kind": "lines", "size": 200000, "final_nl": True, "seed": 11}, "stages": [{"kind": "writer", "chunk": 4096, "delay": 0.001, "rc": 0, "linger": 0}, {"kind": "head", "n": 5000}, {"kind": "cat"}], "form": "!()", "view": "raw", "threads": True, "noise": False, "p": 0},
+    {"payload": {"kind": "lines", "size": 200000, "final_nl": True, "seed": 12}, "stages": [{"kind": "awriter", "chunk": 4096, "delay": 0.001, "rc": 0, "style": "buffer"}, {"kind": "head", "n": 100}, {"kind": "catrc", "rc": 3, "delay": 0}], "form": "!()", "view": "out", "threads": True, "noise": False, "p": 0},
     # print() inside an alias that runs on the main thread ($THREAD_SUBPROCS off)
     {"payload": {"kind": "lines", "size": 100, "final_nl": True, "seed": 5}, "stages": [{"kind": "awriter", "chunk": 4096, "delay": 0, "rc": 0, "style": "print"}], "form": "!()", "view": "out", "threads": False, "noise": False, "p": 0},
 ]
@@ -282,7 +286,12 @@ class C06:
 
     def shards(self, tier, seed):
         per = 75 if tier == "quick" else 1500
-        return [dict(index=i, n=per, timeout=900 if tier == "quick" else 7000) for i in range(16)]
+        out = [dict(index=i, n=per, timeout=900 if tier == "quick" else 7000) for i in range(16)]
+        # one-preemption sweep: every statement line of every targeted function in turn becomes a forced preemption
+        # point (the thread that reaches it is held for a few milliseconds) under a few standard captures
+        nsw = 16
+        out += [dict(kind="sweep", index=i, nsweep=nsw, timeout=900 if tier == "quick" else 7000) for i in range(nsw)]
+        return out
 
     def floors(self, c, tier):
         r = []
@@ -294,6 +303,8 @@ class C06:
             r.append("fewer than 50 distinct interleaving signatures")
         if c.get("set:functions_hit", 0) < 12:
             r.append("targeted functions not reached")
+        if c.get("sweep_sites", 0) < 150 or c.get("sweep_forced_delays_taken", 0) < 300:
+            r.append(f"one-preemption sweep covered too little ({c.get('sweep_sites', 0)} sites, {c.get('sweep_forced_delays_taken', 0)} forced delays taken)")
         for v in ("str", "out", "iter", "raw", "words"):
             if c.get("view_" + v, 0) < 20:
                 r.append(f"view {v} under-exercised")
@@ -414,6 +425,8 @@ class C06:
             loc = find_line(self.target_funcs[fname], needle, off)
             if loc:
                 self.inj.forced[loc] = d
+        for coname, lineno, d in case.get("forced_sites", []):
+            self.inj.forced[(coname, lineno)] = d
         self.repair_std()
         sys.stdout.flush()
         sys.stderr.flush()
@@ -637,8 +650,54 @@ class C06:
         for n in res["std_closed"]:
             viol(f"SESSION-DAMAGED/sys.{n}-closed/{'alias-stages-2+' if sum(1 for s in case['stages'] if s['kind'] in ('awriter', 'acat')) >= 2 else prox}")
 
+    SWEEP_CASES = [
+        {"payload": {"kind": "lines", "size": 6000, "final_nl": True, "seed": 21}, "stages": [{"kind": "writer", "chunk": 2000, "delay": 0.003, "rc": 0, "linger": 0}], "form": "$()", "view": "str", "threads": True, "noise": False, "p": 0},
+        {"payload": {"kind": "lines", "size": 6000, "final_nl": False, "seed": 22}, "stages": [{"kind": "writer", "chunk": 2000, "delay": 0.003, "rc": 3, "linger": 0}], "form": "!()", "view": "raw", "threads": True, "noise": False, "p": 0},
+        {"payload": {"kind": "lines", "size": 9000, "final_nl": True, "seed": 23}, "stages": [{"kind": "awriter", "chunk": 3000, "delay": 0.003, "rc": 0, "style": "buffer"}, {"kind": "catrc", "rc": 0, "delay": 0}], "form": "!()", "view": "out", "threads": True, "noise": False, "p": 0},
+        {"payload": {"kind": "lines", "size": 150000, "final_nl": True, "seed": 24}, "stages": [{"kind": "writer", "chunk": 4096, "delay": 0.0005, "rc": 0, "linger": 0}, {"kind": "head", "n": 3000}, {"kind": "catrc", "rc": 0, "delay": 0}], "form": "$()", "view": "str", "threads": True, "noise": False, "p": 0},
+    ]
+
+    def sweep_sites(self):
+        from vlib.sched import _code_of
+
+        sites = []
+        for name, f in sorted(self.target_funcs.items()):
+            c = _code_of(f)
+            if c is None:
+                continue
+            lines = sorted({ln for _, _, ln in c.co_lines() if ln is not None and ln > c.co_firstlineno})
+            sites += [(c.co_name, ln) for ln in lines]
+        return sorted(set(sites))
+
+    def run_sweep(self, sh, rec):
+        sites = self.sweep_sites()
+        mine = sites[sh["index"] :: sh["nsweep"]]
+        for k, (coname, ln) in enumerate(mine):
+            rec.count("sweep_sites")
+            before = self.inj.stats()["delays_injected"]
+            for j, base in enumerate(self.SWEEP_CASES):
+                case = dict(base, forced_sites=[[coname, ln, 0.012]], sweep=True)
+                if k == 0 and j == 0:
+                    rec.sample({"case": case}, "sweep")
+                self.run_case(case, rec)
+                if j < 2:
+                    # the same preemption point while the reader thread runs late (held before every queue.put):
+                    # windows between "the process has exited" and "its last chunk is queued" need both
+                    case = dict(base, forced_sites=[[coname, ln, 0.012]], forced=[["populate_fd_queue", "queue.put(c)", 0, 0.004]], sweep="slow-reader")
+                    self.run_case(case, rec)
+                    rec.count("sweep_slow_reader_cases")
+            taken = self.inj.stats()["delays_injected"] - before
+            rec.count("sweep_forced_delays_taken", taken)
+            if taken:
+                rec.count("sweep_sites_reached")
+
     def run_shard(self, sh, rec):
         self._setup()
+        if sh.get("kind") == "sweep":
+            self.run_sweep(sh, rec)
+            st = self.inj.stats()
+            rec.count("line_events", st["line_events"])
+            return
         rng = random.Random(f"{sh['seed']}/C06/{sh['index']}")
         cases = []
         if sh["index"] < len(DIRECTED):
